@@ -19,10 +19,16 @@ import (
 //	enum-case-clash      enum members differing only in letter case (up / UP) - distinct Go constants, legal
 //	identity-same-name   identities with the same local name in two modules under one base
 //	identity-sanitise-clash  identities under one base equal after sanitising (a-b / a_b)
-//	key-Key              list keys key + Key
+//	key-Key              list keys key + Key (in this order: a member of key-camelcase-misorder, kept as the fixed pair of F25d)
 //	key-list-name        a list key named like the list
-//	key-camelcase        two keys of one list equal after CamelCase
+//	key-camelcase        two keys of one list equal after CamelCase, in an order that generated code handles (a-b a_b, Key key)
+//	key-camelcase-misorder  a list key shares its CamelCase name with another node of the list entry's name space (another
+//	                     key, a sibling, in OpenConfig style a config/state leaf or a child element) and its alphabetical
+//	                     position inside the clashing group differs from its position among the clashing keys in the key
+//	                     statement (key "key Key"; key policy next to a leaf Policy) - see keyMisorder
 //	list-child-key       a container called key inside a multi-key list (struct <List>_Key)
+//	key-struct-name      a list key whose CamelCase name is the Go name of the list entry struct: a top-level
+//	                     OpenConfig-style list (under -compress_paths /mtus/mtu becomes struct Mtu) with a key mtu
 const (
 	ClCamelSiblings  = "camelcase-siblings"
 	ClDashUnderscore = "dash-underscore"
@@ -39,13 +45,15 @@ const (
 	ClKeyKey         = "key-Key"
 	ClKeyListName    = "key-list-name"
 	ClKeyCamel       = "key-camelcase"
+	ClKeyOrder       = "key-camelcase-misorder"
 	ClListChildKey   = "list-child-key"
+	ClKeyStructName  = "key-struct-name"
 )
 
 // AllClasses lists every collision class, sorted.
 func AllClasses() []string {
 	cs := []string{ClCamelSiblings, ClDashUnderscore, ClGoKeyword, ClMethodValidate, ClMethodAccessor, ClHelperName, ClDigitsDots,
-		ClEnumSanitise, ClEnumUNSET, ClEnumCase, ClIdentSameName, ClIdentSanitise, ClKeyKey, ClKeyListName, ClKeyCamel, ClListChildKey}
+		ClEnumSanitise, ClEnumUNSET, ClEnumCase, ClIdentSameName, ClIdentSanitise, ClKeyKey, ClKeyListName, ClKeyCamel, ClKeyOrder, ClListChildKey, ClKeyStructName}
 	sort.Strings(cs)
 	return cs
 }
@@ -87,6 +95,12 @@ func (g *gen) nodeName(sc *scope, kind string) string {
 		}
 		if !g.use(cl) {
 			return ""
+		}
+		if sc.kinfo != nil && sc.kinfo.misorderWith(sc.names, n, sc.kinfo.nextIsKey) {
+			if !g.use(ClKeyOrder) {
+				return ""
+			}
+			g.hit(ClKeyOrder)
 		}
 		g.hit(cl)
 		return n
@@ -184,24 +198,133 @@ func (g *gen) hostileKeys(c *scope, listName string, nk int) []string {
 	if !g.o.Hostile || !g.chance(22, "hostile-keys") {
 		return nil
 	}
+	// ordered returns the pair as drawn when that order is harmless or the misorder class may be
+	// drawn, and the harmless (alphabetical) order otherwise.
+	ordered := func(p []string) []string {
+		if keyMisorder(p, p) {
+			if g.use(ClKeyOrder) {
+				g.hit(ClKeyOrder)
+				return p
+			}
+			return []string{p[1], p[0]}
+		}
+		return p
+	}
 	switch g.weighted("hostile-keyclass", 30, 35, 35) {
 	case 0:
-		if nk >= 2 && g.use(ClKeyKey) {
-			g.hit(ClKeyKey)
-			return []string{"key", "Key"}
+		if nk >= 2 {
+			if g.use(ClKeyKey) && g.use(ClKeyOrder) {
+				g.hit(ClKeyKey)
+				g.hit(ClKeyOrder)
+				return []string{"key", "Key"}
+			}
+			if g.use(ClKeyCamel) {
+				g.hit(ClKeyCamel)
+				return []string{"Key", "key"}
+			}
 		}
 	case 1:
+		if c.kinfo != nil && c.kinfo.structCamel == camelCase(listName) && !g.use(ClKeyStructName) {
+			return nil
+		}
 		if !reservedOC(listName) && g.use(ClKeyListName) {
-			g.hit(ClKeyListName)
+			g.hit(ClKeyListName) // (key-struct-name is labelled by leafName)
 			return []string{listName}
 		}
 	default:
 		if nk >= 2 && g.use(ClKeyCamel) {
 			g.hit(ClKeyCamel)
-			return pick(g, [][]string{{"a-b", "a_b"}, {"if-name", "if-Name"}, {"vlanId", "vlan-id"}}, "hostile-keypair")
+			p := pick(g, [][]string{{"a-b", "a_b"}, {"vlanId", "vlan-id"}, {"a_b", "a-b"}, {"vlan-id", "vlanId"}, {"x.y", "x_y"}}, "hostile-keypair")
+			return ordered(append([]string{}, p...))
 		}
 	}
 	return nil
+}
+
+// keyInfo is the key bookkeeping of one list entry's name space.
+type keyInfo struct {
+	keys        []string // key leaves in key-statement order, as far as drawn
+	nextIsKey   bool     // the name being drawn is that of the next key
+	structCamel string   // Go name of the entry struct when a key can reach it (top-level OpenConfig-style list under compression), else ""
+}
+
+// misorderWith: would adding n (as the next key when asKey) to the name space put a key out of order?
+func (k *keyInfo) misorderWith(names map[string]bool, n string, asKey bool) bool {
+	all := make([]string, 0, len(names)+1)
+	for x := range names {
+		all = append(all, x)
+	}
+	if !names[n] {
+		all = append(all, n)
+	}
+	keys := k.keys
+	if asKey {
+		keys = append(append([]string{}, keys...), n)
+	}
+	return keyMisorder(all, keys)
+}
+
+// keyMisorder is the trigger of finding F25d stated on the schema: names are the YANG identifiers of
+// one list entry's name space (every node that can become a field of the entry struct), keys the
+// list's keys in key-statement order. Generated code names the fields of the entry struct by making
+// CamelCase names unique in alphabetical order of the YANG names, and the members of the key struct /
+// the parameters of the list helpers by making them unique among the keys in key-statement order.
+// The class is: the two namings disagree for some key.
+func keyMisorder(names, keys []string) bool {
+	sorted := append([]string{}, names...)
+	sort.Strings(sorted)
+	uniq := func(n string, used map[string]bool) string {
+		for used[n] {
+			n += "_"
+		}
+		used[n] = true
+		return n
+	}
+	field := map[string]string{}
+	used := map[string]bool{}
+	for _, n := range sorted {
+		if _, dup := field[n]; !dup {
+			field[n] = uniq(camelCase(n), used)
+		}
+	}
+	usedK := map[string]bool{}
+	for _, k := range keys {
+		if uniq(camelCase(k), usedK) != field[k] {
+			return true
+		}
+	}
+	return false
+}
+
+// leafName draws (or takes the forced) name of a leaf and keeps the key bookkeeping of the list.
+func (g *gen) leafName(sc *scope, o leafOpts) string {
+	name := o.name
+	if name == "" {
+		if sc.kinfo != nil {
+			sc.kinfo.nextIsKey = o.key
+		}
+		name = g.nodeName(sc, "leaf")
+		if sc.kinfo != nil {
+			sc.kinfo.nextIsKey = false
+		}
+	}
+	if o.key && sc.kinfo != nil {
+		if sn := sc.kinfo.structCamel; sn != "" && camelCase(name) == sn {
+			if g.use(ClKeyStructName) {
+				g.hit(ClKeyStructName)
+			} else {
+				// an ordinary name with another CamelCase form
+				had := sc.camel[sn]
+				sc.camel[sn] = true
+				name = g.freshName(sc, "leaf-name-nostruct")
+				if !had {
+					delete(sc.camel, sn)
+				}
+			}
+		}
+		sc.kinfo.keys = append(sc.kinfo.keys, name)
+	}
+	return name
 }
 
 // hostileEnum may add hostile members to an enumeration that is being drawn.
